@@ -428,7 +428,9 @@ def run(script, stack, flags, sv, allow_disabled=False, checker=None, execdata=N
             trace.append(snap()); idx += 1
         if p2sh:
             if not st.stack or not cast_bool(st.stack[-1]): return trace, ('err', 'EVAL_FALSE', idx)
-            st.stack = list(p2shstack); cur = st.stack.pop(); cs = 0; st.nops = 0; p2sh = False
+            st.stack = list(p2shstack)
+            if len(st.stack[-1]) > MAX_SCRIPT: return trace, ('err', 'SCRIPT_SIZE', idx)     # the redeem script is size-limited like every script of a spend
+            cur = st.stack.pop(); cs = 0; st.nops = 0; p2sh = False
             trace.append(snap()); idx += 1
             continue
         if successor:
